@@ -43,6 +43,8 @@ def run(tier, seed, replay=None):
                 cid = p * 1000 + i
                 c = {"id": cid, "parallel": rnd.choice([1, 2, 3, 4, 8]) if i >= 5 else [1, 2, 3, 5, 8][i], "entries": rnd.choice([0, 1, 2, 5, 17, 60, 200]),
                      "big": i % 3 == 2, "chunked": (p == 0 and i == 4) or (thorough and i % 20 == 10), "inf": i % 4 == 1, "seed": seed * 100003 + cid}
+                # the same file given as input twice (decoded one after the other by one command object): the split hash always, else every third
+                c["twice"] = c["chunked"] or i % 3 == 1
                 if c["chunked"]:
                     c["entries"] = max(c["entries"], 30)          # keys of every kind after the split hash
                 if c["big"]:
